@@ -366,4 +366,4 @@ def class_defs(name, rs):
 REJECTED_SHAPES = {'comment', 'la_notb', 'la_notb2', 'la_skip', 'luts', 'bytes_in_str', 'tie_masked_partly', 'amb_cls', 'amb_tok_rx', 'amb_three',
                    'amb_icase', 'amb_look', 'amb_skip', 'nullable', 'nullable_tok', 'nullable_prio', 'nullable_prio_bytes', 'nullable_skip_prio',
                    'nullable_sub', 'nullable_look', 'start_look', 'start_wordb', 'undef_sub', 'greedy_dot', 'non_utf8', 'non_utf8_cls', 'non_utf8_sub',
-                   'uni_wordb', 'non_utf8_skip', 'non_utf8_skip_rx', 'non_utf8_tok', 'non_utf8_icase', 'amb_none_prio'}
+                   'uni_wordb', 'non_utf8_skip', 'non_utf8_skip_rx', 'non_utf8_tok', 'non_utf8_icase'}
